@@ -109,7 +109,9 @@ def gen_fault(rng, config, est_steps, nlanes):
         kind = rng.choice(FAULT_KINDS_CRASH)
     f = {"kind": kind}
     if kind == "eio":
-        f["errno"] = rng.choice([28, 5, 13])  # ENOSPC EIO EACCES
+        # ENOSPC EIO EACCES, and what a rename meets on mount points,
+        # read-only or foreign file systems: EBUSY EXDEV EROFS EPERM
+        f["errno"] = rng.choice([28, 5, 13, 28, 5, 13, 16, 18, 30, 1])
     if kind in ("short", "kill_partial", "short_os"):
         f["frac"] = rng.choice([0.01, 0.1, 0.5, 0.9, 0.99])
     if kind == "stall":
@@ -244,6 +246,22 @@ class C19(Check):
                 est += int(1900 / chunk) * sum(len(l) for l in lanes)
             nf = 0 if config == "faultfree" else rng.choice([0, 1, 1, 1, 2, 2])
             faults = [gen_fault(rng, config, est, nl) for _ in range(nf)]
+            if config == "iofault" and rng.random() < 0.2:
+                # the publishing rename is refused (settings.json is a mount
+                # point, another file system ...), and whatever the writer
+                # does next with the target itself is where the process dies
+                # or where a second one looks
+                faults = [
+                    {"kind": "eio", "errno": rng.choice([16, 18, 30, 1]),
+                     "when": {"op": "rename", "path": "settings.json",
+                              "n": rng.randint(1, 2)}},
+                    {"kind": rng.choice(["kill", "kill_partial", "kill"]),
+                     "frac": rng.choice([0.1, 0.5, 0.9]),
+                     "when": {"op": rng.choice(["write", "open", "write",
+                                                "close", "unlink"]),
+                              "path": "settings.json",
+                              "n": rng.randint(1, 2)}},
+                ]
             epochs.append({"lanes": lanes, "faults": faults})
         pol = rng.choice([("random", ), ("sticky", 0.05), ("sticky", 0.2),
                           ("sticky", 0.5), ("pct", 1, 40), ("pct", 2, 40),
